@@ -432,3 +432,14 @@ Definition head_nondigit (s : str) : Prop :=
 (* a deliberately weak 2-byte "hash" for the non-vacuity examples of props/C14.v
    (sum and length: permutations of a string collide) *)
 Definition toyH (x : bytes) : bytes := [fold_left N.add x 7 mod 256; N.of_nat (length x) mod 256].
+
+(* ---------- the Merkle minters' whitelist branch (is_public_mint, whitelist active,
+   proof_hashes present): the minter asks the whitelist HasMember for the composed leaf;
+   anything but a positive answer rejects the mint, and the proven allocation (when given)
+   is the sender's whitelist limit, so an allocation of 0 can never mint ---------- *)
+Definition minter_wl_check (answer : result bool) (wl_mint_count : N) (allocation : option N)
+    (per_address_limit : N) : bool :=
+  match answer with
+  | Ok true => wl_mint_count <? (match allocation with Some a => a | None => per_address_limit end)
+  | _ => false
+  end.
